@@ -22,8 +22,6 @@ def expected : JParam → Option SqlVal
     match parseInt10 lit with
     | some z => some (.integer z)
     | none => if floatOverflows lit then none else some (.real (.fin tok))
-  | .intLit z => if int64Min ≤ z ∧ z ≤ int64Max then some (.integer z) else some (.real (bigToFlt z))
-  | .fltLit f => some (.real f)
   | .bool b => some (.integer (if b then 1 else 0))
   | .null => some .null
   | .str s => some (match parseHex s with | some bs => .blob bs | none => .text s)
@@ -47,8 +45,6 @@ theorem bind_preserves_type_and_value (j : JParam) :
     cases parseInt10 lit with
     | some z => simp [bindParam]
     | none => simp only; split <;> simp [bindParam]
-  | intLit z => simp only [makeParameter, expected]; split <;> simp [bindParam]
-  | fltLit f => simp [makeParameter, expected, bindParam]
   | bool b => simp [makeParameter, expected, bindParam]
   | null => simp [makeParameter, expected, bindParam]
   | str s =>
@@ -65,7 +61,7 @@ theorem bind_injective (p q : Param) (hp : ∀ b, p ≠ .b b) (hq : ∀ b, q ≠
     (hp' : ∀ bs, p ≠ .sBytes bs) (hq' : ∀ bs, q ≠ .sBytes bs) (h : bindParam p = bindParam q) : p = q := by
   cases p <;> cases q <;> simp_all [bindParam]
 
-example : (makeParameter (.intLit 9223372036854775807)).map bindParam = some (.integer 9223372036854775807) ∧
+example : (makeParameter (.num "9223372036854775807" "t")).map bindParam = some (.integer 9223372036854775807) ∧
     (makeParameter (.arr [])).map bindParam = some (.blob []) ∧
     (makeParameter (.arr [some 1, some 256])).map bindParam = none := by decide
 
@@ -153,15 +149,29 @@ def integer_literals_bound_as_integers_full : Prop :=
     (makeParameter (.num lit tok)).map bindParam = some (.integer z)
 
 set_option exponentiation.threshold 5000 in
-/-- just outside the range an integer literal is bound as the nearest DOUBLE (a REAL), not an integer -/
+/-- just outside the range an integer literal is bound as the nearest DOUBLE (a REAL), not an integer.
+The double is `tok`, computed by Go (`json.Number.Float64`) and opaque here: 2^63 and 2^63+1 round to
+the same double (Go prints both as 9.223372036854776e+18), so the two DIFFERENT integers reach SQLite
+as the SAME value - the integer sent is not what is stored. (A literal too large for any double is
+rejected: `floatOverflows`.) -/
 theorem integer_literal_outside_int64_witness :
-    (makeParameter (.num "9223372036854775808" "t")).map bindParam = some (.real (.fin "t")) ∧
-    (makeParameter (.num "-9223372036854775809" "t")).map bindParam = some (.real (.fin "t")) ∧
-    intLiteralValue "9223372036854775808" = some 9223372036854775808 := by decide
+    (makeParameter (.num "9223372036854775808" "9.223372036854776e+18")).map bindParam
+      = some (.real (.fin "9.223372036854776e+18")) ∧
+    (makeParameter (.num "9223372036854775809" "9.223372036854776e+18")).map bindParam
+      = some (.real (.fin "9.223372036854776e+18")) ∧
+    intLiteralValue "9223372036854775808" = some 9223372036854775808 ∧
+    intLiteralValue "9223372036854775809" = some 9223372036854775809 ∧
+    (makeParameter (.num "-9223372036854775809" "t")).map bindParam = some (.real (.fin "t")) := by decide
+
+set_option exponentiation.threshold 5000 in
+set_option maxRecDepth 20000 in
+/-- an integer literal too large for any double (1 followed by 309 zeros) is rejected -/
+theorem integer_literal_beyond_double_rejected_witness :
+    makeParameter (.num ("1" ++ String.ofList (List.replicate 309 '0')) "inf") = none := by decide
 
 theorem integer_literals_bound_as_integers_full_is_false : ¬ integer_literals_bound_as_integers_full := by
   intro h
-  have := h "9223372036854775808" "t" 9223372036854775808 integer_literal_outside_int64_witness.2.2
+  have := h "9223372036854775808" "9.223372036854776e+18" 9223372036854775808 integer_literal_outside_int64_witness.2.2.1
   rw [integer_literal_outside_int64_witness.1] at this
   cases this
 
@@ -216,13 +226,10 @@ example :
     makeParameter (.num "1.7976931348623159e308" "t") = none ∧
     makeParameter (.num "1e-400" "t") = some (.d (.fin "t")) := by decide
 
-/-- named parameters (members of a JSON object) keep their name and are converted like positional
-ones: every produced parameter carries its member's name and the value `makeParameter` gives it -/
-theorem named_parameters_keep_name_and_value (ms : List (String × JParam)) (ps : List (String × Param))
-    (h : parseArgs [.named ms] = some ps) :
+theorem mapM_named (ms : List (String × JParam)) (ps : List (String × Param))
+    (h : ms.mapM (fun (kv : String × JParam) => (makeParameter kv.2).map fun p => (kv.1, p)) = some ps) :
     ps.map (·.1) = ms.map (·.1) ∧
     ∀ kp ∈ ms.zip ps, makeParameter kp.1.2 = some kp.2.2 := by
-  simp only [parseArgs, Option.bind_eq_bind, Option.pure_def, Option.bind_some, List.append_nil] at h
   induction ms generalizing ps with
   | nil => simp at h; subst h; simp
   | cons kv ms ih =>
@@ -244,9 +251,95 @@ theorem named_parameters_keep_name_and_value (ms : List (String × JParam)) (ps 
         · subst h1; exact hm
         · exact i2 kp h1
 
-/-- a rejected member rejects the request -/
-example : parseArgs [.named [("a", .intLit 1), ("b", .obj)]] = none ∧
-    parseArgs [.pos (.intLit 1), .named [("a", .str "x'00'")]] = some [("", .i 1), ("a", .y [0])] := by decide
+theorem dedupLast_sub (ms : List (String × JParam)) : ∀ kv ∈ dedupLast ms, kv ∈ ms := by
+  induction ms with
+  | nil => intro kv h; cases h
+  | cons a rest ih =>
+    intro kv h
+    unfold dedupLast at h
+    split at h
+    · exact List.mem_cons_of_mem _ (ih kv h)
+    · simp only [List.mem_cons] at h
+      rcases h with rfl | h
+      · simp
+      · exact List.mem_cons_of_mem _ (ih kv h)
+
+theorem dedupLast_nodup (ms : List (String × JParam)) : ((dedupLast ms).map (·.1)).Nodup := by
+  induction ms with
+  | nil => simp [dedupLast]
+  | cons a rest ih =>
+    unfold dedupLast
+    split
+    · exact ih
+    · rename_i hn
+      simp only [List.map_cons, List.nodup_cons]
+      refine ⟨?_, ih⟩
+      intro hmem
+      simp only [List.mem_map] at hmem
+      obtain ⟨kv, hkv, hk⟩ := hmem
+      apply hn
+      simp only [List.any_eq_true, beq_iff_eq]
+      exact ⟨kv, dedupLast_sub rest kv hkv, hk⟩
+
+/-- the member that survives for a key is the LAST one written with that key -/
+theorem dedupLast_keeps_last (ms : List (String × JParam)) (kv : String × JParam) (h : kv ∈ dedupLast ms) :
+    (ms.reverse.find? fun o => o.1 == kv.1) = some kv := by
+  induction ms with
+  | nil => cases h
+  | cons a rest ih =>
+    unfold dedupLast at h
+    simp only [List.reverse_cons, List.find?_append]
+    split at h
+    · rw [ih h]; rfl
+    · rename_i hn
+      simp only [List.mem_cons] at h
+      rcases h with rfl | h
+      · have : (rest.reverse.find? fun o => o.1 == kv.1) = none := by
+          rw [List.find?_eq_none]
+          intro o ho hok
+          apply hn
+          simp only [List.any_eq_true]
+          exact ⟨o, List.mem_reverse.mp ho, hok⟩
+        simp [this]
+      · rw [ih h]; rfl
+
+/-- Named parameters (members of a JSON object): every produced parameter carries the name of a member
+and the value `makeParameter` gives that member's value; no name is produced twice; for a key written
+more than once the LAST member is the one used (Go's decoder has dropped the others - they are not
+even validated). The order of the parameters of one object is not defined in Go (map iteration); the
+model lists them in the order of the surviving members and the correspondence run compares them
+sorted by name. -/
+theorem named_parameters_keep_name_and_value (ms : List (String × JParam)) (ps : List (String × Param))
+    (h : parseArgs [.named ms] = some ps) :
+    ps.map (·.1) = (dedupLast ms).map (·.1) ∧ (ps.map (·.1)).Nodup ∧
+    (∀ kp ∈ (dedupLast ms).zip ps, makeParameter kp.1.2 = some kp.2.2 ∧
+      (ms.reverse.find? fun o => o.1 == kp.1.1) = some kp.1) := by
+  have h' : (dedupLast ms).mapM (fun (kv : String × JParam) => (makeParameter kv.2).map fun p => (kv.1, p)) = some ps := by
+    simp only [parseArgs, List.mapM_cons, List.mapM_nil, parseArg, Option.bind_eq_bind, Option.pure_def] at h
+    cases hm : (dedupLast ms).mapM (fun (kv : String × JParam) => (makeParameter kv.2).map fun p => (kv.1, p)) with
+    | none => simp [hm] at h
+    | some g => simp [hm] at h; rw [h]
+  obtain ⟨i1, i2⟩ := mapM_named (dedupLast ms) ps h'
+  refine ⟨i1, by rw [i1]; exact dedupLast_nodup ms, ?_⟩
+  intro kp hkp
+  exact ⟨i2 kp hkp, dedupLast_keeps_last ms kp.1 (List.of_mem_zip hkp).1⟩
+
+/-- items keep their order: the parameters of a request are those of its first item followed by those
+of the rest (go-sqlite3 numbers positional parameters by their place in this list) -/
+theorem parseArgs_cons (a : Arg) (rest : List Arg) :
+    parseArgs (a :: rest) = (parseArg a).bind fun g => (parseArgs rest).map fun ps => g ++ ps := by
+  simp only [parseArgs, List.mapM_cons, Option.bind_eq_bind, Option.pure_def]
+  cases parseArg a with
+  | none => rfl
+  | some g =>
+    cases List.mapM parseArg rest with
+    | none => rfl
+    | some gs => rfl
+
+/-- a rejected member rejects the request - unless a later member with the same key replaces it -/
+example : parseArgs [.named [("a", .num "1" "1"), ("b", .obj)]] = none ∧
+    parseArgs [.named [("a", .obj), ("b", .null), ("a", .num "3" "3")]] = some [("b", .null), ("a", .i 3)] ∧
+    parseArgs [.pos (.num "1" "1"), .named [("a", .str "x'00'")], .pos .null] = some [("", .i 1), ("a", .y [0]), ("", .null)] := by decide
 
 /-! ### the hex literal rule, stated explicitly -/
 
@@ -515,12 +608,84 @@ cannot hold both) - `SELECT 1 AS a, 2 AS a` -/
 theorem associative_duplicate_witness :
     assocGet ["a", "a"] [.num 1, .num 2] "a" = some (.num 2) := by decide
 
-/-! ### the whole way: parameter in, expression out
-A parameter read straight back (`SELECT ?`) is an expression, i.e. a text-typed column. -/
-theorem roundtrip_through_expression (j : JParam) (p : Param) (blobArray : Bool)
-    (_hp : makeParameter j = some p) (hx : excluded true (bindParam p) = false) :
-    ∃ o, readback .plain true blobArray (bindParam p) = some o ∧ decode o = some (bindParam p) :=
-  readback_lossless_partial true blobArray (bindParam p) hx
+/-- the associative form composed with the read path: when the array form of a row holds `outs`
+(`readback` of each cell, `cells[i].1` = the column is text-typed), the column names are distinct and
+no cell is one of the recorded failing inputs, then the value the associative row holds under each
+column's name decodes to exactly what SQLite holds in that column -/
+theorem associative_row_lossless (cols : List String) (cells : List (Bool × SqlVal)) (outs : List JOut)
+    (blobArray : Bool) (hn : cols.Nodup) (hl : cells.length = cols.length) (ho : outs.length = cols.length)
+    (hr : ∀ i (hi : i < cols.length),
+      readback .plain (cells[i]'(by omega)).1 blobArray (cells[i]'(by omega)).2 = some (outs[i]'(by omega)))
+    (hx : ∀ c ∈ cells, excluded c.1 c.2 = false) :
+    ∀ i (hi : i < cols.length), ∃ j, assocGet cols outs cols[i] = some j ∧
+      decode j = some (cells[i]'(by omega)).2 := by
+  intro i hi
+  refine ⟨outs[i]'(by omega), associative_equals_array cols outs hn ho i hi, ?_⟩
+  have hc : cells[i]'(by omega) ∈ cells := List.getElem_mem _
+  obtain ⟨j, h1, h2⟩ := readback_lossless_partial (cells[i]'(by omega)).1 blobArray (cells[i]'(by omega)).2 (hx _ hc)
+  rw [hr i hi] at h1
+  cases h1
+  exact h2
+
+/-! ### the whole way: JSON parameter in, JSON value out -/
+
+/-- `makeParameter` never produces an infinite REAL (a literal that large is rejected) -/
+theorem makeParameter_never_infinite (j : JParam) (p : Param) (hp : makeParameter j = some p) (n : Bool) :
+    bindParam p ≠ .real (.inf n) := by
+  cases j with
+  | num lit tok =>
+    simp only [makeParameter] at hp
+    split at hp
+    · cases hp; simp [bindParam]
+    · split at hp
+      · cases hp
+      · cases hp; simp [bindParam]
+  | bool b => cases hp; simp [bindParam]
+  | null => cases hp; simp [bindParam]
+  | str s =>
+    simp only [makeParameter] at hp
+    split at hp <;> (cases hp; simp [bindParam])
+  | arr elems =>
+    simp only [makeParameter, Option.map_eq_some_iff] at hp
+    obtain ⟨bs, _, rfl⟩ := hp
+    simp [bindParam]
+  | obj => cases hp
+
+/-- The composition `makeParameter → bindParam → readback → decode`: a JSON parameter that is accepted
+and read straight back - from an expression (`SELECT ?`) or a column that stores it as bound - yields
+a JSON value from which the client recovers exactly the value the specification `expected` assigns to
+the parameter SENT (the integer, the double, the characters, the bytes, NULL), in both blob encodings.
+The one exclusion: a non-empty blob read from a text-typed/untyped column or an expression (the
+recorded finding) - an infinite REAL cannot arise from a parameter. Assumed, and checked on every run
+against real SQLite: the value bound is the value held (no column affinity conversion). -/
+theorem roundtrip_parameter_to_response (j : JParam) (p : Param) (textTyped blobArray : Bool)
+    (hp : makeParameter j = some p)
+    (hx : ∀ bs, bindParam p = .blob bs → textTyped = true → bs = []) :
+    ∃ o, readback .plain textTyped blobArray (bindParam p) = some o ∧ decode o = expected j := by
+  have hspec : expected j = some (bindParam p) := by
+    rw [← bind_preserves_type_and_value, hp]; rfl
+  have hex : excluded textTyped (bindParam p) = false := by
+    cases hv : bindParam p with
+    | blob bs =>
+      cases textTyped
+      · rfl
+      · simp [excluded, hx bs hv rfl]
+    | real f =>
+      cases f with
+      | fin tok => rfl
+      | inf n => exact absurd hv (makeParameter_never_infinite j p hp n)
+    | integer z => rfl
+    | text t => rfl
+    | null => rfl
+  rw [hspec]
+  exact readback_lossless_partial textTyped blobArray (bindParam p) hex
+
+/-- the excluded case at a concrete input: the blob [0,255,65] sent as a byte array and read back
+through `SELECT ?` comes back as a string with U+FFFD in it -/
+theorem roundtrip_blob_through_expression_witness :
+    makeParameter (.arr [some 0, some 255, some 65]) = some (.y [0, 255, 65]) ∧
+    readback .plain true false (bindParam (.y [0, 255, 65])) = some (.lossyStr [0, 255, 65]) ∧
+    decode (.lossyStr [0, 255, 65]) = none := by decide
 
 example : excluded true (.blob [1]) = true ∧ excluded false (.blob [1]) = false ∧
     excluded true (.integer 9223372036854775807) = false := by decide
